@@ -861,7 +861,7 @@ def run_e2e(ctx, cov, dist):
     for n in ("pdcp", "rpdcp"):
         if not os.path.lexists(os.path.join(bindir, n)):
             os.symlink(os.path.join(repo, "src/pdsh/pdsh"), os.path.join(bindir, n))
-    nruns = 8 if ctx.quick() else 60
+    nruns = 10 if ctx.quick() else 60
     future = FUTURE
     dist["e2e_runs"] = 0
     for k in range(nruns):
@@ -884,7 +884,8 @@ def run_e2e(ctx, cov, dist):
         # the first runs pin the corners of the command-line rules: exactly two list entries (-y), one entry (no -y),
         # -p on and off in both directions, no -r for plain files
         plan = [dict(p=1, shape="emptydir"), dict(p=1, shape="any"), dict(p=0, shape="file"), dict(p=0, shape="any"),
-                dict(p=1, shape="two"), dict(p=1, shape="file"), dict(p=0, shape="twofiles-destfile"), dict(p=0, shape="unreadable")]
+                dict(p=1, shape="two"), dict(p=1, shape="file"), dict(p=0, shape="twofiles-destfile"), dict(p=0, shape="unreadable"),
+                dict(p=1, shape="newname"), dict(p=1, shape="tree")]
         shape = "any"
         if k < len(plan):
             p, shape = plan[k]["p"], plan[k]["shape"]
@@ -893,6 +894,20 @@ def run_e2e(ctx, cov, dist):
         elif shape == "file":
             trees = [Node(b"file.txt", "f", 0o640, 1300000001, gen=(77, 10240))]
             r = 0
+        elif shape == "newname":
+            # ONE plain file copied to a file name that does not exist yet: the receiver must NOT be told that the target
+            # is a directory (-y only for more than one list entry)
+            reverse = False
+            trees = [Node(b"file.txt", "f", 0o640, 1300000001, gen=(79, pcp.BUFSIZ + 5))]
+            r = 0
+        elif shape == "tree":
+            # a fixed tree with -r in a REVERSE copy: nested and empty directories, a file of several blocks
+            reverse = True
+            trees = [Node(b"tree", "d", 0o750, 1300000000, kids=[
+                Node(b"a file", "f", 0o640, 1300000001, gen=(81, 3 * pcp.BUFSIZ + 1)),
+                Node(b"sub", "d", 0o700, 1300000002, kids=[Node(b"inner", "f", 0o600, 1300000003, gen=(82, 0)),
+                                                           Node(b"empty", "d", 0o755, 1300000004, kids=[])]),
+                Node(b"z", "f", 0o444, 1300000005, gen=(83, 1))])]
         elif shape == "unreadable":
             # a file the (unprivileged) user cannot read INSIDE a source directory: it may cost that file (or the run may
             # be refused), but pdcp must terminate, say so, and every other file that arrives must be intact
@@ -944,7 +959,8 @@ def run_e2e(ctx, cov, dist):
             cmd = ["rpdcp", "-R", "pcptest", "-w", "h[1-3]"] + flags + ["-e", wrapper] + users + ["out"]
         else:
             users = ["src/" + t.name.decode() for t in trees]
-            cmd = ["pdcp", "-R", "pcptest", "-w", "h[1-3]"] + flags + ["-e", wrapper] + users + ["dst"]
+            cmd = ["pdcp", "-R", "pcptest", "-w", "h[1-3]"] + flags + ["-e", wrapper] + users + [
+                "dst/newname" if shape == "newname" else "dst"]
         full = ["setpriv", "--reuid", "1000", "--regid", "1000", "--clear-groups"] + env + cmd
         cj = dict(e2e=True, command=" ".join(cmd), sources=[describe(t) for t in trees])
         pr = None
@@ -1021,7 +1037,8 @@ def run_e2e(ctx, cov, dist):
             mlines = ["cmdr %s %d %d %s %s" % (hx(os.fsencode(wrapper)), r, p, hx(h.encode()),
                                                " ".join(hx(u.encode()) for u in users)) for h in HOSTS3]
         else:
-            mlines = ["cmdf %s %d %d %d %s" % (hx(os.fsencode(wrapper)), r, p, nent, hx(b"dst"))] * 3
+            mlines = ["cmdf %s %d %d %d %s" % (hx(os.fsencode(wrapper)), r, p, nent,
+                                               hx(b"dst/newname" if shape == "newname" else b"dst"))] * 3
         want = sorted(" ".join(pcp.unhx(x).decode().split()) for x in ctx.model("pcp", "".join(l + "\n" for l in mlines)))
         if logged != want:
             ctx.disagreement("pcp command line (dsh())", "remote command lines: real %r model %r" % (logged, want), cj)
@@ -1046,7 +1063,7 @@ def run_e2e(ctx, cov, dist):
                 snap = pcp.snapshot(os.path.join(w, h, "dst"))
                 stoks = []
                 for t in trees:
-                    stoks += tokens(t)
+                    stoks += tokens(t, name=b"newname" if shape == "newname" else None)
             ft = snapshot_tokens(snap, gens)
             slines.append("spec11 %d - %d %s %s" % (p, len(ft), " ".join(ft), " ".join(stoks)))
         for h, sp in zip(HOSTS3, ctx.model("pcp", "".join(l + "\n" for l in slines))):
